@@ -119,6 +119,60 @@ def effects_unchanged(F, path):
     return nf.is_verified_equivalent(F, path) is not None
 
 
+def detect_renames(doc):
+    """{new path: old path}: a baseline function that no longer exists while a function that did not exist at the baseline
+    has its loss-free effect skeleton is that function under a new name (a renamed private function or method).  Must run
+    before helper inlining (which would inline the 'new' function into its callers)."""
+    from . import nf, mir as _mir, inline as _inline
+    forms, _ = _baseline()
+    if not forms:
+        return {}
+    present = set(b["path"] for b in doc["bodies"])
+    gone = [p for p, h in forms.items() if p not in present and h.get("form")]
+    if not gone:
+        return {}
+    base = _inline.baseline()
+    cand = [b["path"] for b in doc["bodies"] if b["path"] not in base and "{closure" not in b["path"] and b.get("kind") in ("Fn", "AssocFn") and not b.get("light")]
+    if not cand:
+        return {}
+    os.environ["VERIF_NO_INLINE"] = "1"
+    try:
+        F0 = _mir.Facts(doc)
+    finally:
+        del os.environ["VERIF_NO_INLINE"]
+    prev, nf.FACTS = nf.FACTS, None
+    try:
+        by_hash = {}
+        for p in cand:
+            try:
+                s = nf.full_form(F0, p)
+            except Exception:
+                continue
+            if not lossy(s):
+                by_hash.setdefault(nf.form_hash(s), []).append(p)
+        out = {}
+        for old in gone:
+            new = by_hash.get(forms[old]["form"], [])
+            # same container (module / impl) and unambiguous
+            new = [n for n in new if n.rsplit("::", 1)[0] == old.rsplit("::", 1)[0]]
+            if len(new) == 1 and new[0] not in out:
+                out[new[0]] = old
+        return out
+    finally:
+        nf.FACTS = prev
+
+
+def apply_renames(doc, ren):
+    """rewrites every occurrence of the new def-paths (the function, its closures, call sites, fn-item values) to the old ones"""
+    txt = json.dumps(doc)
+    for new, old in ren.items():
+        a, b = json.dumps(new)[1:-1], json.dumps(old)[1:-1]
+        txt = txt.replace('"%s"' % a, '"%s"' % b).replace('"%s::{' % a, '"%s::{' % b).replace("{%s}" % a, "{%s}" % b)
+    doc2 = json.loads(txt)
+    doc2["_renamed"] = dict(ren)
+    return doc2
+
+
 def apply(F):
     """-> (new doc, {path: table entry}) or (None, {})"""
     from . import nf
